@@ -413,7 +413,9 @@ class Settings:
             tree = yaml.load(stream)
             userSettings = tree[settingsIO.Roots.CUSTOM]
 
-        userSettingsNames = list(userSettings.keys())
+        # the file may still use old names; report the names the settings have now
+        renamer = settingsIO.SettingRenamer(dict(self.items()))
+        userSettingsNames = [renamer.renameSetting(name)[0] for name in userSettings.keys()]
         return userSettingsNames
 
     def writeToYamlStream(self, stream, style="short", settingsSetByUser=[]):
